@@ -126,7 +126,7 @@ Definition dec_dunder (s : sexp) : option dunder :=
   end.
 Definition enc_method (m : method) : sexp :=
   SA (match m with MAdd => "add" | MSub => "sub" | MMul => "mul" | MDiv => "div" | MPow => "pow" | MAnd => "and"
-               | MOr => "or" | MXor => "xor" | MMulRecip => "mul-reciprocal" | MNotImpl => "not-implemented" end).
+               | MOr => "or" | MXor => "xor" | MMulRecip => "mul-reciprocal" | MNegAdd => "neg-add" | MNotImpl => "not-implemented" end).
 
 Definition dispatch (cmd : string) (args : list sexp) : option sexp :=
   match cmd, args with
